@@ -1889,6 +1889,11 @@ impl CanonicalizeContext {
 				// }
 				let child = as_element(children[i]);
 				let child_name = name(&child);
+				if child.attribute("arg").is_some() {
+					// an argument of an intent is referenced as a whole -- it is not a piece of a split number
+					i += 1;
+					continue;
+				}
 
 				// numbers start with an mn or a decimal separator
 				if child_name == "mn" || child_name=="mtext"{
@@ -1917,6 +1922,9 @@ impl CanonicalizeContext {
 					for sibling in children[i+1..].iter() {
 						let sibling = as_element(*sibling);
 						let sibling_name = name(&sibling);
+						if sibling.attribute("arg").is_some() {
+							break;		// an argument of an intent ends the number
+						}
 						if sibling_name == "mn" {
 							let leaf_text = as_text(sibling);
 							let is_block_separator = context.patterns.block_separator.is_match(leaf_text);
